@@ -1,7 +1,7 @@
 (* C19 — a multi reporter forwards every call to every child exactly once, in order.
    This file holds only the property theorems; proofs are in Proof/MultiP.v. *)
 From Coq Require Import ZArith List Bool.
-From Tally Require Import Base.Obs Model.Multi Proof.MultiP.
+From Tally Require Import Base.ObsCore Model.Multi Proof.MultiP.
 Import ListNotations.
 
 (* For every number of children (0 included) and every call history on the
